@@ -130,6 +130,7 @@ func runC19(c *Ctx) {
 		"(R2) SessionMiddleware composes parent-first: the previously registered handler is called exactly once, the new handler is called only on the parent's err == nil edge with the parent's returned context, and the error tested is the parent's own result (not shared state); registration wraps the current Server.Session; " +
 		"(R3) every context handed to a callback, cache or internal helper in the connection code is derived (through context.With*, the slot setters and callbacks' own results) from the enclosing function's context parameter - no context.Background/TODO below the per-connection root; the context given to the command loop passes through the type-map, remote-address, client-parameter and server-parameter setters and the session middleware; handleCommand derives a cancellable context whose cancel function is deferred on every exit; " +
 		"(R4) Terminate: the terminate hook is invoked at most once, on its success the connection the loop reads from is closed and a non-nil result ends the command loop (consumeSingleCommand forwards it unchanged, consumeCommands returns on it); on its failure the error is returned. Not decided: what user middlewares put in the context."
+	R.Explanation += " (R4) also: a configured hook is never skipped - in the function that invokes it only the TerminateConn == nil edge bypasses the call, and up the call chain to the Terminate arm the call is on every path."
 	R.Trusted = []string{"go/types + go/ssa", "context.With* return contexts derived from their parent"}
 
 	// ---------- R1
@@ -614,7 +615,34 @@ func (c *Ctx) c19Terminate() {
 		R.Fail("C19.R4", "handleCommand:parameters", c.atFn(hc), "handleCommand dispatches on the message type", "no ClientMessage parameter found")
 		return
 	}
-	if connParam == nil {
+	// who closes the connection after Terminate: the arm itself (on the session's connection), or serve - whose
+	// deferred Close on the accepted connection runs when the command loop ends with the arm's non-nil result
+	closesAtEnd := false
+	if serve := c.P.Method("wire", "Server", "serve"); serve != nil {
+		cc := c.P.Method("wire", "Session", "consumeCommands")
+		for _, ci := range core.Calls(serve) {
+			d, isDefer := ci.(*ssa.Defer)
+			if !isDefer || !d.Call.IsInvoke() || d.Call.Method.Name() != "Close" || !core.IsNamed(d.Call.Value.Type(), "net", "Conn") {
+				continue
+			}
+			if _, isParam := d.Call.Value.(*ssa.Parameter); !isParam {
+				continue
+			}
+			for _, loop := range callsIn(serve, calleeIs(cc)) {
+				if core.InstrDominates(d, loop) {
+					closesAtEnd = true
+				}
+			}
+		}
+	}
+	armCloses := false
+	for _, ci := range core.Calls(hc) {
+		if cc := ci.Common(); cc.IsInvoke() && cc.Method.Name() == "Close" && core.IsNamed(cc.Value.Type(), "net", "Conn") {
+			armCloses = true
+		}
+	}
+	R.Check(armCloses || closesAtEnd, "C19.R4", "Terminate:someone-closes", c.atFn(hc), "after Terminate the connection is closed: by the arm, or by serve's deferred Close once the command loop has ended with the arm's result", sprintf("arm closes: %v; serve defers Close of the accepted connection before the command loop: %v", armCloses, closesAtEnd), "neither the Terminate arm nor a deferred Close in serve closes the connection")
+	if connParam == nil && !closesAtEnd {
 		R.Fail("C19.R4", "Terminate:closes-session-connection", c.atFn(hc), "the Terminate arm has the session's connection at hand and closes it", "handleCommand does not receive the connection: the Terminate arm cannot close it")
 	}
 	tc := newTraceClient(c, terminateRule{c})
@@ -622,9 +650,66 @@ func (c *Ctx) c19Terminate() {
 	ts.Relevant = c.reachesEvents()
 	before := len(R.Obls)
 	outs := ts.Run(hc, joinState("", "start"), core.ConstEnv(tparam, constant.MakeInt64('X')))
-	R.Check(tc.Events["CB:terminate"] > 0 && tc.Events["CLOSE"] > 0, "C19.R4", "floor:terminate-events", c.atFn(hc), "the terminate hook call and the connection close are on explored paths of the arm", sprintf("%v", tc.Events), "hook call or close not found in the Terminate arm")
+	R.Check(tc.Events["CB:terminate"] > 0 && (tc.Events["CLOSE"] > 0 || (closesAtEnd && !armCloses)), "C19.R4", "floor:terminate-events", c.atFn(hc), "the terminate hook call and the connection close are on explored paths of the arm", sprintf("%v", tc.Events), "hook call or close not found in the Terminate arm")
 	if len(R.Obls) == before+1 {
 		R.OK("C19.R4", "Terminate:arm", c.atFn(hc), "every path of the Terminate arm: hook at most once, close, non-nil result", sprintf("%d exits, %d states", len(outs), ts.States))
+	}
+	// a configured hook is invoked on every path of the arm (exactly once = at most once above + never skipped):
+	// in the function that calls it, only the TerminateConn == nil edge may bypass the call; up the call chain to
+	// the arm, the call of that function is not bypassed at all
+	var hookFn *ssa.Function
+	var hookCall ssa.CallInstruction
+	for _, fn := range c.P.ScopeFuncs() {
+		for _, ci := range core.Calls(fn) {
+			if callbackName(ci) == "terminate" {
+				hookFn, hookCall = fn, ci
+			}
+		}
+	}
+	if hookFn != nil {
+		skip := map[edge]bool{}
+		for _, b := range hookFn.Blocks {
+			for _, in := range b.Instrs {
+				if u, ok := in.(*ssa.UnOp); ok {
+					if fr, ok := core.FieldOfValue(u); ok && fr.Is(pkWire, "Server", "TerminateConn") {
+						for _, e := range nilEdges(u, true) {
+							skip[e] = true
+						}
+					}
+				}
+			}
+		}
+		bypass := mustPassViolations(hookFn.Blocks[0], hookCall.Block(), skip)
+		for _, r := range bypass {
+			R.Fail("C19.R4", fkey(hookFn)+":hook-skipped:"+retDescr(r), c.at(r), "a configured terminate hook is invoked for every Terminate message of every connection", "a return of "+fname(hookFn)+" is reachable without invoking the hook although TerminateConn != nil (the hook runs zero times for some Terminate messages)")
+		}
+		if len(bypass) == 0 {
+			R.OK("C19.R4", fkey(hookFn)+":hook-never-skipped", c.at(hookCall), "a configured terminate hook is invoked for every Terminate message of every connection", "only the TerminateConn == nil edge bypasses the hook call (must-pass-through)")
+		}
+		// from the arm down to hookFn
+		cur := hookFn
+		for cur != hc {
+			sites := c.P.CallSitesOf(cur)
+			if len(sites) != 1 {
+				R.Fail("C19.R4", fkey(cur)+":terminate-chain", c.atFn(cur), "the terminate hook is reached from the Terminate arm through single call sites", sprintf("%d call sites", len(sites)))
+				break
+			}
+			site := sites[0]
+			up := site.Parent()
+			start := up.Blocks[0]
+			if up == hc {
+				start = nil
+				for _, e := range constEqEdges(tparam, int64('X'), true) {
+					start = e.to()
+				}
+			}
+			if start != nil {
+				for _, r := range mustPassViolations(start, site.Block(), nil) {
+					R.Fail("C19.R4", fkey(up)+":terminate-call-skipped:"+retDescr(r), c.at(r), "a configured terminate hook is invoked for every Terminate message of every connection", fname(up)+" can return from the Terminate path without calling "+fname(cur))
+				}
+			}
+			cur = up
+		}
 	}
 	// the Close is invoked on the connection parameter
 	for _, ci := range core.Calls(hc) {
@@ -642,6 +727,9 @@ func (c *Ctx) c19Terminate() {
 			continue
 		}
 		for _, ci := range callsIn(caller, calleeIs(callee)) {
+			if !armCloses {
+				continue // the connection is closed by serve, nothing is handed down
+			}
 			ok := false
 			for _, a := range ci.Common().Args {
 				if p, isP := a.(*ssa.Parameter); isP && core.IsNamed(p.Type(), "net", "Conn") {
@@ -713,4 +801,29 @@ func capturedVar(v ssa.Value) *ssa.FreeVar {
 		}
 	}
 	return nil
+}
+
+// mustPassViolations returns the returns reachable from start without entering block target and
+// without taking any edge of skip.
+func mustPassViolations(start, target *ssa.BasicBlock, skip map[edge]bool) []*ssa.Return {
+	var out []*ssa.Return
+	seen := map[*ssa.BasicBlock]bool{}
+	var walk func(b *ssa.BasicBlock)
+	walk = func(b *ssa.BasicBlock) {
+		if seen[b] || b == target {
+			return
+		}
+		seen[b] = true
+		if r, ok := b.Instrs[len(b.Instrs)-1].(*ssa.Return); ok {
+			out = append(out, r)
+		}
+		for i, s := range b.Succs {
+			if skip[edge{b, i}] {
+				continue
+			}
+			walk(s)
+		}
+	}
+	walk(start)
+	return out
 }
